@@ -23,6 +23,8 @@ pub enum Fam {
     Progress,
     /// C11: datagram service
     Dgram,
+    /// the connection task must not end while the scenario is healthy
+    Alive,
     /// panics anywhere in the repository's code
     Panic,
 }
@@ -71,6 +73,9 @@ struct Side {
     acks_out: u64,
     handshake_ack_sent: bool,
     reset_sent_while_held: bool,
+    /// payload bytes of Push frames delivered to this endpoint for this stream
+    dlv_bytes: u64,
+    dlv_bytes_at_reset: Option<u64>,
 }
 
 #[derive(Default, Clone, Debug)]
@@ -143,6 +148,7 @@ pub fn analyse(log: &[Rec], fams: &[Fam], meta: &Meta) -> Analysis {
     let mut granted: HashMap<(usize, u32), u32> = HashMap::new();
     // (ep, flow): ep received Connect(flow) and has not yet answered it
     let mut handshake_out: std::collections::HashSet<(usize, u32)> = std::collections::HashSet::new();
+    let mut flows_seen: std::collections::HashSet<(usize, u32)> = std::collections::HashSet::new();
     let mut conn_end = false;
     let mut conn_end_ep = [false; 2];
     // datagrams
@@ -153,6 +159,7 @@ pub fn analyse(log: &[Rec], fams: &[Fam], meta: &Meta) -> Analysis {
     let mut dg_delivered = [0u64; 2];
     let mut dg_received = [0u64; 2];
     let mut dg_wire_sent = [0u64; 2];
+    let mut dg_host_len: HashMap<u64, usize> = HashMap::new();
     let mut dg_refused_pending: HashMap<u64, bool> = HashMap::new();
 
     for (i, rec) in log.iter().enumerate() {
@@ -166,7 +173,10 @@ pub fn analyse(log: &[Rec], fams: &[Fam], meta: &Meta) -> Analysis {
                     conn_end_ep[1 - *ep as usize] = true;
                 }
             }
-            Ev::TaskRet { ep, .. } => {
+            Ev::TaskRet { ep, res } => {
+                if !conn_end {
+                    cx.fail(Fam::Alive, i, format!("task-ended|{res}"), format!("ep{ep}: the connection task returned {res} although nobody closed the connection"));
+                }
                 conn_end = true;
                 conn_end_ep[*ep as usize] = true;
             }
@@ -293,6 +303,9 @@ pub fn analyse(log: &[Rec], fams: &[Fam], meta: &Meta) -> Analysis {
                         if let Some(sid) = by_flow.get(&(e, *id)).copied() {
                             let s = &mut streams.get_mut(&sid).expect("stream").s[e];
                             s.reset_delivered = true;
+                            if s.dlv_bytes_at_reset.is_none() {
+                                s.dlv_bytes_at_reset = Some(s.dlv_bytes);
+                            }
                             if s.reset_dlv_at.is_none() {
                                 s.reset_dlv_at = Some(i);
                             }
@@ -301,6 +314,11 @@ pub fn analyse(log: &[Rec], fams: &[Fam], meta: &Meta) -> Analysis {
                     Wm::Finish { id } => {
                         if let Some(sid) = by_flow.get(&(e, *id)).copied() {
                             streams.get_mut(&sid).expect("stream").s[e].finish_delivered = true;
+                        }
+                    }
+                    Wm::Push { id, len, .. } => {
+                        if let Some(sid) = by_flow.get(&(e, *id)).copied() {
+                            streams.get_mut(&sid).expect("stream").s[e].dlv_bytes += *len as u64;
                         }
                     }
                     Wm::Dgram { .. } => {
@@ -331,7 +349,11 @@ pub fn analyse(log: &[Rec], fams: &[Fam], meta: &Meta) -> Analysis {
                             bind_side(st, e, true, *key, *flow, *credit, &granted);
                             by_key.insert(*key, (*sid, e));
                             by_flow.insert((e, *flow), *sid);
-                            check_initial_credit(&mut cx, i, st, e, *sid);
+                            let reused = !flows_seen.insert((e, *flow));
+                            if reused {
+                                cnt.add("id_reused_streams", 1);
+                            }
+                            check_initial_credit(&mut cx, i, st, e, *sid, reused);
                         } else {
                             cnt.add("opens_failed", 1);
                             if !conn_end {
@@ -356,7 +378,11 @@ pub fn analyse(log: &[Rec], fams: &[Fam], meta: &Meta) -> Analysis {
                         bind_side(st, e, false, *key, *flow, *credit, &granted);
                         by_key.insert(*key, (*sid, e));
                         by_flow.insert((e, *flow), *sid);
-                        check_initial_credit(&mut cx, i, st, e, *sid);
+                        let reused = !flows_seen.insert((e, *flow));
+                        if reused {
+                            cnt.add("id_reused_streams", 1);
+                        }
+                        check_initial_credit(&mut cx, i, st, e, *sid, reused);
                     }
                     Api::WriteCall { n, .. } => {
                         let Some(st) = streams.get_mut(sid) else { continue };
@@ -396,6 +422,7 @@ pub fn analyse(log: &[Rec], fams: &[Fam], meta: &Meta) -> Analysis {
                                 let cause = st.s[e].shut_called || peer_dropped || st.s[e].reset_delivered || conn_end || st.s[e].dropped;
                                 if !cause {
                                     cx.fail(Fam::Progress, i, "spurious-broken-pipe", format!("ep{e} s{sid}: write failed with BrokenPipe although nobody shut down, aborted or ended the connection"));
+                                    cx.fail(Fam::Abort, i, "stream-closed-by-unrelated-event", format!("ep{e} s{sid}: write failed with BrokenPipe although nobody shut down or aborted this stream and the connection is up"));
                                 }
                             }
                             WRes::Other(err) => {
@@ -424,12 +451,20 @@ pub fn analyse(log: &[Rec], fams: &[Fam], meta: &Meta) -> Analysis {
                         } else {
                             st.s[e].eof = true;
                             cnt.add("eof_seen", 1);
+                            if let Some(b) = st.s[e].dlv_bytes_at_reset {
+                                cnt.add("eof_after_peer_abort", 1);
+                                if st.s[e].got < b && !conn_end {
+                                    let got = st.s[e].got;
+                                    cx.fail(Fam::Abort, i, "abort-lost-delivered-data", format!("ep{e} s{sid}: the peer aborted; {b} bytes had been delivered to this endpoint before the Reset but the reader got end-of-stream after {got}"));
+                                }
+                            }
                             let w = &st.s[p];
                             let peer_closed = w.finished_total.is_some() || w.aborted_total.is_some() || w.shut_called || w.dropped;
                             // the reader itself having been reset by... no: only the peer or the connection may end the stream
                             if !peer_closed && !conn_end {
                                 cx.fail(Fam::Eos, i, "premature-eof", format!("ep{e} s{sid}: read returned end-of-stream after {} bytes although the peer neither shut down nor dropped the stream and the connection is up (peer has written {} bytes)", st.s[e].got, w.accepted));
                                 cx.fail(Fam::Bytes, i, "premature-eof", format!("ep{e} s{sid}: end-of-stream after {} bytes while the peer is still writing ({} accepted)", st.s[e].got, w.accepted));
+                                cx.fail(Fam::Abort, i, "stream-ended-by-unrelated-event", format!("ep{e} s{sid}: end-of-stream after {} bytes although the peer neither finished nor aborted this stream", st.s[e].got));
                             } else if let (Some(total), false) = (w.finished_total, conn_end) {
                                 if w.aborted_total.is_none() && st.s[e].got != total && !st.s[e].dropped {
                                     let got = st.s[e].got;
@@ -470,14 +505,22 @@ pub fn analyse(log: &[Rec], fams: &[Fam], meta: &Meta) -> Analysis {
                             }
                         }
                     }
-                    Api::DgSendCall { id } => {
+                    Api::DgSendCall { id, host_len } => {
                         dg_sent_ok[e].push(*id);
+                        dg_host_len.insert(*id, *host_len);
                     }
                     Api::DgSendRet { id, res } => {
                         cnt.add("dgram_sends", 1);
+                        let long = dg_host_len.get(id).copied().unwrap_or(0) > 255;
                         if res != "Ok" {
                             dg_refused_pending.insert(*id, true);
                             cnt.add("dgram_refused", 1);
+                        }
+                        if long && res != "DatagramHostTooLong" {
+                            cx.fail(Fam::Dgram, i, "long-host-not-refused", format!("ep{e}: send_datagram with a {}-byte target host returned {res} instead of DatagramHostTooLong", dg_host_len[id]));
+                        }
+                        if !long && res != "Ok" && !conn_end {
+                            cx.fail(Fam::Dgram, i, format!("send-refused|{res}"), format!("ep{e}: send_datagram with a {}-byte target host failed with {res} on a healthy connection", dg_host_len.get(id).copied().unwrap_or(0)));
                         }
                     }
                     Api::DgRecv { id, fields_ok } => {
@@ -578,6 +621,9 @@ pub fn analyse(log: &[Rec], fams: &[Fam], meta: &Meta) -> Analysis {
             if dg_wire_sent[e] < ok_sends {
                 cx.fail(Fam::Progress, log.len(), "datagram-not-transmitted", format!("ep{e}: {ok_sends} datagrams accepted by send_datagram but only {} were put on the wire by the end of the run", dg_wire_sent[e]));
             }
+            if dg_wire_sent[e] > ok_sends {
+                cx.fail(Fam::Dgram, log.len(), "refused-datagram-on-wire", format!("ep{e}: {} Datagram frames on the wire but only {ok_sends} sends were accepted", dg_wire_sent[e]));
+            }
             if dg_wire_sent[e] != dg_delivered[1 - e] {
                 cx.fail(Fam::Progress, log.len(), "datagram-stuck-in-link", format!("ep{e}: {} datagrams sent on the wire, {} delivered to the peer endpoint", dg_wire_sent[e], dg_delivered[1 - e]));
             }
@@ -600,13 +646,16 @@ fn bind_side(st: &mut Stream, e: usize, opened: bool, key: usize, flow: u32, cre
     s.handshake_ack_sent = !opened;
 }
 
-fn check_initial_credit(cx: &mut Ctx<'_>, i: usize, st: &Stream, e: usize, sid: u32) {
+fn check_initial_credit(cx: &mut Ctx<'_>, i: usize, st: &Stream, e: usize, sid: u32, reused: bool) {
     let s = &st.s[e];
     match s.window_out {
         Some(w) => {
             // the accessor is read right after the stream is handed over: nothing can have been taken yet
             if s.hook_credit != w {
                 cx.fail(Fam::Open, i, "initial-credit", format!("ep{e} s{sid}: initial send credit is {} but the peer advertised a window of {w}", s.hook_credit));
+                if reused {
+                    cx.fail(Fam::Abort, i, "reused-id-initial-credit", format!("ep{e} s{sid}: stream on a re-used flow id starts with send credit {} instead of the advertised window {w} (state of the old stream leaked)", s.hook_credit));
+                }
             }
         }
         None => cx.fail(Fam::Open, i, "no-handshake-on-wire", format!("ep{e} s{sid}: stream established without a Connect/Acknowledge for flow {:x} having been delivered", s.flow)),
